@@ -142,6 +142,10 @@ def build_registry(wire):
         reg = ur.default_unit_registry
         for k, w in wire["set"].items():
             reg.lut[k] = entry_unwire(w)
+        if wire["set"]:
+            # a fresh registry with these contents has no strings cached
+            # from the import-time definitions
+            reg._unit_object_cache.clear()
         model = dict(lt.default_unit_symbol_lut)
         for k, w in wire["set"].items():
             model[k] = reg.lut[k]
